@@ -69,11 +69,13 @@ def check(world, tier):
     a.need(len(B), 1, "block-number update  B := ack.wrapping_add(1)")
     drains = [e for e in S.events if base_name(e) == "std::collections::VecDeque::drain"]
     removals = []     # (key, location, starts at the front?, number of chunks removed)
+    dlog = {}
+    for (node, s_, e_) in eng.drain_log:
+        dlog.setdefault(node, []).append((s_, e_))
     for e in drains:
-        snap = e.args[1] if len(e.args) > 1 else None
-        rng = snap[1] if isinstance(snap, tuple) and snap[0] == "agg" else {}
-        start, end = rng.get((0,)), rng.get((1,))
-        removals.append(((e.node, repr(e.args[1])[:2000]), e.loc, start is not None and start[0] == "i" and start[1] == (0, ()), end))
+        # range as computed by the drain model (any range syntax: a..b, ..b, ..=b)
+        for (s_, e_) in dlog.get(e.node, []):
+            removals.append(((e.node, repr((s_, e_))), e.loc, s_ == (0, ()), ("i", e_, None)))
     if not drains:
         # the window API is used instead of a drain in sight: Window::remove(k) removes exactly the k oldest chunks (contract C18.remove)
         rm = [e for e in S.events if e.inlined and base_name(e) == WINDOW + "::remove"]
